@@ -282,123 +282,258 @@ func (e *Env) Run(c Case, emit func(map[string]interface{}) error) error {
 		if c.Kind == "set" || c.Kind == "map" {
 			orders = [][2]int{{0, 0}, {0, 1}, {1, 0}, {2, 1}, {1, 2}}
 		}
-		for _, ord := range orders {
-			ev := map[string]interface{}{"ev": "diff", "kind": c.Kind, "col": cn, "a": c.A, "b": c.B,
-				"oa": ord[0], "ob": ord[1], "hasModify": false, "modify": c.A, "applied": c.A, "aAfter": c.A,
-				"a2After": c.A, "err": "", "rewritten": false, "newVal": c.A}
-			fail := func(format string, args ...interface{}) error {
-				ev["err"] = fmt.Sprintf(format, args...)
-				return emit(ev)
+		vias := []string{"update"}
+		if c.Kind == "set" || c.Kind == "map" {
+			vias = append(vias, "mutate")
+		}
+		for _, via := range vias {
+			if via == "mutate" {
+				// oa: element order of a; ob: where a mutation without effect is placed (0 none, 1 last, 2 first)
+				orders = [][2]int{{0, 0}, {0, 1}, {1, 2}, {2, 1}}
 			}
-			ta := typed(col, c.A, ord[0])
-			tb := typed(col, c.B, ord[1])
-			mA, err := e.Ctx.AbsToModel("D", u, map[string]interface{}{cn: ta})
-			if err != nil {
-				return err
-			}
-			snapA := snapshot(mA, cn)
-			// the update also changes another column: the column under test is then
-			// part of a recorded update even when its own value stays the same
-			rowB, err := e.Ctx.AbsToOvsRow("D", map[string]interface{}{cn: tb, "mark": "changed"})
-			if err != nil {
-				return err
-			}
-			op := ovsdb.Operation{Op: ovsdb.OperationUpdate, Table: "D", Row: rowB}
-			mu := updates.ModelUpdates{}
-			if err := mu.AddOperation(e.Ctx.DBModel, "D", e.Ctx.Tok.ToReal(u), mA, &op); err != nil {
-				if err := fail("AddOperation: %v", err); err != nil {
-					return err
+			for _, ord := range orders {
+				ev := map[string]interface{}{"ev": "diff", "via": via, "kind": c.Kind, "col": cn, "a": c.A, "b": c.B,
+					"oa": ord[0], "ob": ord[1], "hasModify": false, "modify": c.A, "applied": c.A, "aAfter": c.A,
+					"a2After": c.A, "err": "", "rewritten": false, "newVal": c.A}
+				fail := func(format string, args ...interface{}) error {
+					ev["err"] = fmt.Sprintf(format, args...)
+					return emit(ev)
 				}
-				continue
-			}
-			var modify *ovsdb.Row
-			_ = mu.ForEachRowUpdate("D", func(uuid string, ru ovsdb.RowUpdate2) error {
-				modify = ru.Modify
-				return nil
-			})
-			aAfter, err := fieldAbs(e, mA, cn)
-			if err != nil {
-				return err
-			}
-			if ev["aAfter"], err = back(col, aAfter); err != nil {
-				return err
-			}
-			ev["rewritten"] = snapshot(mA, cn) != snapA
-			// the new model recorded by the update holds b
-			if nm := mu.GetModel("D", e.Ctx.Tok.ToReal(u)); nm != nil {
-				nv, err := fieldAbs(e, nm, cn)
+				ta := typed(col, c.A, ord[0])
+				tb := typed(col, c.B, ord[1])
+				mA, err := e.Ctx.AbsToModel("D", u, map[string]interface{}{cn: ta})
 				if err != nil {
 					return err
 				}
-				if ev["newVal"], err = back(col, nv); err != nil {
+				snapA := snapshot(mA, cn)
+				// the update also changes another column: the column under test is then
+				// part of a recorded update even when its own value stays the same
+				rowB, err := e.Ctx.AbsToOvsRow("D", map[string]interface{}{cn: tb, "mark": "changed"})
+				if err != nil {
 					return err
 				}
-			} else {
-				ev["newVal"] = c.B
-				ev["err"] = "the update was not recorded although another column changed"
-			}
-			if modify != nil {
-				if mv, ok := (*modify)[cn]; ok {
-					ev["hasModify"] = true
-					am, err := e.Ctx.Tok.OvsToAbs(modCol(col), mv)
+				op := ovsdb.Operation{Op: ovsdb.OperationUpdate, Table: "D", Row: rowB}
+				if via == "mutate" {
+					ms, err := e.mutations(cn, col, c, ord[1])
 					if err != nil {
-						if err := fail("modify value: %v", err); err != nil {
-							return err
-						}
+						return err
+					}
+					if len(ms) == 0 {
 						continue
 					}
-					if ev["modify"], err = back(modCol(col), am); err != nil {
-						if err := fail("modify value: %v", err); err != nil {
-							return err
-						}
-						continue
-					}
+					op = ovsdb.Operation{Op: ovsdb.OperationMutate, Table: "D", Mutations: ms}
 				}
-				// apply the modify row, as received over the wire, to a fresh model of a
-				wire, err := roundTrip(*modify)
-				if err != nil {
-					return err
-				}
-				mA2, err := e.Ctx.AbsToModel("D", u, map[string]interface{}{cn: ta})
-				if err != nil {
-					return err
-				}
-				snapA2 := snapshot(mA2, cn)
-				mu2 := updates.ModelUpdates{}
-				if err := mu2.AddRowUpdate2(e.Ctx.DBModel, "D", e.Ctx.Tok.ToReal(u), mA2, ovsdb.RowUpdate2{Modify: &wire}); err != nil {
-					if err := fail("AddRowUpdate2: %v", err); err != nil {
+				mu := updates.ModelUpdates{}
+				if err := mu.AddOperation(e.Ctx.DBModel, "D", e.Ctx.Tok.ToReal(u), mA, &op); err != nil {
+					if err := fail("AddOperation: %v", err); err != nil {
 						return err
 					}
 					continue
 				}
-				res := mu2.GetModel("D", e.Ctx.Tok.ToReal(u))
-				if res == nil {
-					res = mA2 // applying the difference changed nothing
-				}
-				ap, err := fieldAbs(e, res, cn)
+				var modify *ovsdb.Row
+				_ = mu.ForEachRowUpdate("D", func(uuid string, ru ovsdb.RowUpdate2) error {
+					modify = ru.Modify
+					return nil
+				})
+				aAfter, err := fieldAbs(e, mA, cn)
 				if err != nil {
 					return err
 				}
-				if ev["applied"], err = back(col, ap); err != nil {
+				if ev["aAfter"], err = back(col, aAfter); err != nil {
 					return err
 				}
-				a2, err := fieldAbs(e, mA2, cn)
-				if err != nil {
+				ev["rewritten"] = snapshot(mA, cn) != snapA
+				// the new model recorded by the update holds b
+				if nm := mu.GetModel("D", e.Ctx.Tok.ToReal(u)); nm != nil {
+					nv, err := fieldAbs(e, nm, cn)
+					if err != nil {
+						return err
+					}
+					if ev["newVal"], err = back(col, nv); err != nil {
+						return err
+					}
+				} else if via == "update" {
+					ev["newVal"] = c.B
+					ev["err"] = "the update was not recorded although another column changed"
+				}
+				if modify != nil {
+					if mv, ok := (*modify)[cn]; ok {
+						ev["hasModify"] = true
+						am, err := e.Ctx.Tok.OvsToAbs(modCol(col), mv)
+						if err != nil {
+							if err := fail("modify value: %v", err); err != nil {
+								return err
+							}
+							continue
+						}
+						if ev["modify"], err = back(modCol(col), am); err != nil {
+							if err := fail("modify value: %v", err); err != nil {
+								return err
+							}
+							continue
+						}
+					}
+					// apply the modify row, as received over the wire, to a fresh model of a
+					wire, err := roundTrip(*modify)
+					if err != nil {
+						return err
+					}
+					mA2, err := e.Ctx.AbsToModel("D", u, map[string]interface{}{cn: ta})
+					if err != nil {
+						return err
+					}
+					snapA2 := snapshot(mA2, cn)
+					mu2 := updates.ModelUpdates{}
+					if err := mu2.AddRowUpdate2(e.Ctx.DBModel, "D", e.Ctx.Tok.ToReal(u), mA2, ovsdb.RowUpdate2{Modify: &wire}); err != nil {
+						if err := fail("AddRowUpdate2: %v", err); err != nil {
+							return err
+						}
+						continue
+					}
+					res := mu2.GetModel("D", e.Ctx.Tok.ToReal(u))
+					if res == nil {
+						res = mA2 // applying the difference changed nothing
+					}
+					ap, err := fieldAbs(e, res, cn)
+					if err != nil {
+						return err
+					}
+					if ev["applied"], err = back(col, ap); err != nil {
+						return err
+					}
+					a2, err := fieldAbs(e, mA2, cn)
+					if err != nil {
+						return err
+					}
+					if ev["a2After"], err = back(col, a2); err != nil {
+						return err
+					}
+					if snapshot(mA2, cn) != snapA2 {
+						ev["rewritten"] = true
+					}
+				}
+				if err := emit(ev); err != nil {
 					return err
 				}
-				if ev["a2After"], err = back(col, a2); err != nil {
-					return err
-				}
-				if snapshot(mA2, cn) != snapA2 {
-					ev["rewritten"] = true
-				}
-			}
-			if err := emit(ev); err != nil {
-				return err
 			}
 		}
 	}
 	return nil
+}
+
+// mutations expresses the change a -> b of a set or map column as the mutations of one mutate operation:
+// delete what goes, insert what comes, and (tail 1: last, tail 2: first) one mutation that has no effect.
+func (e *Env) mutations(cn string, col abs.Col, c Case, tail int) ([]ovsdb.Mutation, error) {
+	var ms []ovsdb.Mutation
+	add := func(mut string, v interface{}, shape string) error {
+		ov, err := e.Ctx.Tok.ToOvs(col, v, shape)
+		if err != nil {
+			return err
+		}
+		ms = append(ms, ovsdb.Mutation{Column: cn, Mutator: ovsdb.Mutator(mut), Value: ov})
+		return nil
+	}
+	a, _ := c.A.([]interface{})
+	b, _ := c.B.([]interface{})
+	const absent = 999 // outside the universe of the cases, enumerated or random
+	if c.Kind == "set" {
+		in := func(xs []interface{}, x interface{}) bool {
+			for _, y := range xs {
+				if toInt(y) == toInt(x) {
+					return true
+				}
+			}
+			return false
+		}
+		var del, ins []interface{}
+		for _, x := range a {
+			if !in(b, x) {
+				del = append(del, atomOf(col.Key.T, toInt(x)))
+			}
+		}
+		for _, x := range b {
+			if !in(a, x) {
+				ins = append(ins, atomOf(col.Key.T, toInt(x)))
+			}
+		}
+		noop := func() error { return add("delete", []interface{}{atomOf(col.Key.T, absent)}, "col") }
+		if tail == 2 {
+			if err := noop(); err != nil {
+				return nil, err
+			}
+		}
+		if len(del) > 0 {
+			if err := add("delete", del, "col"); err != nil {
+				return nil, err
+			}
+		}
+		if len(ins) > 0 {
+			if err := add("insert", ins, "col"); err != nil {
+				return nil, err
+			}
+		}
+		if tail == 1 {
+			if len(b) > 0 {
+				// an element the column holds by now
+				if err := add("insert", []interface{}{atomOf(col.Key.T, toInt(b[0]))}, "col"); err != nil {
+					return nil, err
+				}
+			} else if err := noop(); err != nil {
+				return nil, err
+			}
+		}
+		return ms, nil
+	}
+	val := func(ps []interface{}, k interface{}) (int, bool) {
+		for _, p := range ps {
+			kv := p.([]interface{})
+			if toInt(kv[0]) == toInt(k) {
+				return toInt(kv[1]), true
+			}
+		}
+		return 0, false
+	}
+	var del, ins []interface{}
+	for _, p := range a {
+		kv := p.([]interface{})
+		if v, ok := val(b, kv[0]); !ok || v != toInt(kv[1]) {
+			del = append(del, atomOf(col.Key.T, toInt(kv[0])))
+		}
+	}
+	for _, p := range b {
+		kv := p.([]interface{})
+		if v, ok := val(a, kv[0]); !ok || v != toInt(kv[1]) {
+			ins = append(ins, []interface{}{atomOf(col.Key.T, toInt(kv[0])), atomOf(col.Val.T, toInt(kv[1]))})
+		}
+	}
+	noop := func() error { return add("delete", []interface{}{atomOf(col.Key.T, absent)}, "set") }
+	if tail == 2 {
+		if err := noop(); err != nil {
+			return nil, err
+		}
+	}
+	if len(del) > 0 {
+		if err := add("delete", del, "set"); err != nil {
+			return nil, err
+		}
+	}
+	if len(ins) > 0 {
+		if err := add("insert", ins, "col"); err != nil {
+			return nil, err
+		}
+	}
+	if tail == 1 {
+		if len(b) > 0 {
+			// a key the column holds by now, with another value: insert does not replace
+			kv := b[0].([]interface{})
+			if err := add("insert", []interface{}{[]interface{}{atomOf(col.Key.T, toInt(kv[0])), atomOf(col.Val.T, toInt(kv[1])+1)}}, "col"); err != nil {
+				return nil, err
+			}
+		} else if err := noop(); err != nil {
+			return nil, err
+		}
+	}
+	return ms, nil
 }
 
 // modCol is the column type a modify value has: for optional columns the new
